@@ -263,3 +263,17 @@ def run_bin(bindir, name, cases_path, out_path, timeout=1800, env=None):
                        stdout=subprocess.PIPE, stderr=subprocess.STDOUT, text=True, errors="replace")
     log(f"[run] {name}: rc={r.returncode} {time.time()-t0:.1f}s")
     return r.returncode, r.stdout
+
+
+def read_ndjson_lenient(path):
+    out = []
+    with open(path, errors="replace") as f:
+        for l in f:
+            l = l.strip()
+            if not l:
+                continue
+            try:
+                out.append(json.loads(l))
+            except Exception:
+                break          # a truncated last line of a process that died
+    return out
